@@ -59,6 +59,9 @@ def peel(e):
         if is_call(e, 'Option::<T>::as_ref') or is_call(e, 'Option::<T>::as_mut'):
             e = e[2][0]
             changed = True
+        elif is_call(e, 'Option::<T>::insert') and len(e[2]) == 2:
+            e = norm(stdalg.canon_value(e[2][1]))          # `opt.insert(x)` hands back a reference to x in its new home
+            changed = True
         elif (is_call(e, 'Option::<T>::unwrap') or is_call(e, 'Option::<T>::expect')) and e[2][0][0] in ('agg', 'call'):
             inner = e[2][0]
             if is_call(inner, 'Option::<T>::as_ref') or is_call(inner, 'Option::<T>::as_mut'):
@@ -462,10 +465,22 @@ def r05_3(ctx):
             g = lib.fns.get(path)
             if g is None or not (path.startswith(HEAP + '::')):
                 continue
-            for _, t in g.calls():
+            from sym import Sym as _Sym
+            sy_ = _Sym(g)
+            for bid_, t in g.calls():
                 cal = g.callee(t) or ''
                 m = cal.rsplit('::', 1)[-1]
                 if m in ('eq', 'ne', 'le', 'lt', 'ge', 'gt') and 'cmp' in cal:
+                    # relation between the TOP SLOT's key and the probe key, whichever way round it is written
+                    try:
+                        a_ = sy_.call_expr(bid_)[2]
+                    except Exception:
+                        a_ = ()
+                    if len(a_) == 2:
+                        s0 = any(is_call(x, 'Slot::input') for x in walk(a_[0]))
+                        s1 = any(is_call(x, 'Slot::input') for x in walk(a_[1]))
+                        if s1 and not s0:
+                            m = {'le': 'ge', 'ge': 'le', 'lt': 'gt', 'gt': 'lt'}.get(m, m)
                     found.append(m)
         ctx.check(R, found == [want], helper, '%s must pop iff top.key %s key (comparisons found: %s)' % (helper, {'eq': '==', 'le': '<='}[want], found), fn=f)
     d = lib.fn(OPS['difference'])
